@@ -350,7 +350,35 @@ def observe_history(exe, r, c, run, witness, stats):
                 expect += 2
             phase_of_count.append(st)
             sim.run(until=sim.elapsed() + 3000, quiesce=False)
-        got = [e for e in sim.log if e["e"] == "rsp" and e.get("n") == 0 and e["tok"] == tok.hex()]
+        # unprotecting yields the original options: what the server application is handed for
+        # the cancellation is Observe 1 (the inner option; a registration is the empty value) -
+        # and with the observation gone, a further change reaches nobody
+        sreq = [e for e in sim.log if e["e"] == "req" and e.get("n") == 1 and e["tok"] == tok.hex()
+                and e["res"] == "o" and e["sess"] != -1 and e.get("type") == 0]
+        # (the handler also runs for every notification, with the stored registration under a
+        # new message id: registrations are only counted from below)
+        nreg = sum(1 for st in steps if st in ("register", "reregister", "cancel-then-register"))
+        ncan = sum(1 for st in steps if st in ("cancel", "cancel-then-register"))
+        seen_reg = sum(1 for e in sreq if "6=;" in (e["opts"] + ";") or e["opts"].startswith("6=;")
+                       or ";6=;" in ";" + e["opts"] + ";")
+        seen_can = sum(1 for e in sreq if ";6=01;" in ";" + e["opts"] + ";")
+        stats["observe_requests_at_server"] = stats.get("observe_requests_at_server", 0) + len(sreq)
+        if seen_can != ncan or seen_reg < nreg:
+            run.violation("oscore-observe-request-option-changed", dict(
+                witness, server_saw=[e["opts"] for e in sreq]),
+                "the client sent %d registrations (Observe empty) and %d cancellations "
+                "(Observe 1); the server's handler (which also runs once per notification, with "
+                "the registration) saw options %r" %
+                (nreg, ncan, [e["opts"] for e in sreq]))
+        mark = len(sim.log)
+        sim.cmd("notify 1 o")
+        sim.run(until=sim.elapsed() + 3000, quiesce=False)
+        if any(e["e"] == "rsp" and e.get("n") == 0 and e["tok"] == tok.hex() for e in sim.log[mark:]):
+            run.violation("oscore-observation-not-cancelled", witness,
+                          "after the cancellation a further change still produced a "
+                          "notification at the client")
+        got = [e for e in sim.log[:mark] if e["e"] == "rsp" and e.get("n") == 0 and
+               e["tok"] == tok.hex()]
         stats["observe_responses"] = stats.get("observe_responses", 0) + len(got)
         if len(got) < expect:
             missing = phase_of_count[len(got)] if len(got) < len(phase_of_count) else "?"
